@@ -35,10 +35,10 @@ m = {
         "add_only": True,
     },
     "engines": [
-        {"name": "E1", "path": "/verif/lib/vrun.py + /verif/harness/*.rs", "serves_properties": sorted(props.PROPS),
+        {"name": "E1", "path": "/verif/lib/vrun.py + /verif/harness/*.rs", "serves_properties": sorted(p for p in props.PROPS if any(getattr(j, "kind", "") == "kani" for j in props.PROPS[p]().jobs)),
          "kind_free_text": "Kani 0.68 / CBMC 6.11 / CaDiCaL bounded model checking of the compiled rdp-rs code, kani::any() inputs, unwinding assertions on, native concrete-playback replay"},
-        {"name": "E2/E3", "path": "/verif/lib/mirq.py", "serves_properties": props.MIR_PROPS,
-         "kind_free_text": "rustc MIR dump of the working tree -> control-flow facts / integer kernels -> z3 (fixedpoint + QF_BV), cross-checked with cvc5"},
+        {"name": "E2/E3", "path": "/verif/lib/mirq.py + /verif/lib/mirjobs.py", "serves_properties": sorted(p for p in props.PROPS if any(getattr(j, "kind", "") != "kani" for j in props.PROPS[p]().jobs)),
+         "kind_free_text": "rustc MIR dump of the working tree (library, and the GUI binary for C20) -> control-flow facts / integer kernels -> z3 (fixedpoint + QF_BV), cross-checked with cvc5; alarms replayed by generated native tests"},
     ],
     "checks": checks,
     "not_applicable": [{"property_id": k, "reason": v} for k, v in sorted(NOT_APPLICABLE.items()) if k not in props.PROPS],
